@@ -263,6 +263,12 @@ qb_log_target_format_static(int32_t target, const char * format,
 				format_buffer_idx += 1;
 			}
 
+			if (format[format_buffer_idx] == '\0') {
+				/* an unfinished directive at the very end:
+				 * do not step over the terminator */
+				break;
+			}
+
 			switch (format[format_buffer_idx]) {
 			case 'P':
 				snprintf(tmp_buf, 30, "%d", getpid());
@@ -359,6 +365,12 @@ qb_log_target_format(int32_t target,
 			}
 			while (isdigit(t->format[format_buffer_idx])) {
 				format_buffer_idx += 1;
+			}
+
+			if (t->format[format_buffer_idx] == '\0') {
+				/* an unfinished directive at the very end:
+				 * do not step over the terminator */
+				break;
 			}
 
 			switch (t->format[format_buffer_idx]) {
